@@ -107,6 +107,11 @@ def parseObs (rec : String) : Option Obs :=
     pure { commit := c, term := t, matchIdx := m, nextIdx := n }
   | _ => none
 
+def parsePending (rec : String) : List Nat :=
+  match rec.splitOn " " with
+  | [_, _, _, _, p, _] => ((stripBr p "p[").bind natList).getD []
+  | _ => []
+
 /-- walk the model for the context (log, cached configuration), judge the implementation's records -/
 def judgeAll : Leader → List Op → Obs → List Obs → Option String
   | _, [], _, _ => none
@@ -146,37 +151,46 @@ def monitorC09 (c : Case) (out : String) : String :=
 
 /-- C27 on this family: an acknowledgement of a peer that is a learner (by role) or a stranger never
     moves the commit index, and the commit index never moves by a quorum that needs a learner. -/
-def learnerAckMoves : Leader → List Op → Obs → List Obs → Option String
+def learnerAckMoves (cu : Nat) : Leader → List Op → (Obs × List Nat) → List (Obs × List Nat) → Option String
   | _, [], _, _ => none
   | _, _ :: _, _, [] => some "missing-record"
-  | s, op :: rest, pre, post :: more =>
+  | s, op :: rest, (pre, ppre), (post, ppost) :: more =>
     match step s (fixOp s op) with
     | none => some "unexpected-panic-model"
     | some (s', _, _) =>
       let bad := match fixOp s op with
         | .ack p _ _ => !isVoterTarget s.targets p && post.commit != pre.commit
         | _ => false
+      -- ids newly queued for promotion must be caught-up promotable learners (by the implementation's own numbers)
+      let newly := ppost.filter fun id => !ppre.contains id
+      let lagging := newly.any fun id =>
+        !(isLearnerTarget s'.targets id && Memb.contains s'.view.nodes id
+          && ((Memb.find? s'.view.nodes id).map (·.status)).getD sReadOnly == sPromotable
+          && post.commit - mgetD post.matchIdx id ≤ cu)
       if bad then some "learner-ack-moved-commit"
+      else if lagging then some "promotion-of-ineligible-learner"
       else if post.commit > pre.commit &&
           holders post.commit (voterPeers s'.targets) post.matchIdx * 2 ≤ (voterPeers s'.targets).length + 1 &&
           holders post.commit (s'.targets.map (·.id)) post.matchIdx * 2 > (voterPeers s'.targets).length + 1 &&
-          (s'.targets.any fun n => n.role == rLearner && mgetD post.matchIdx n.id ≥ post.commit) &&
-          !(holders post.commit ((voterPeers s'.targets).filter fun id => (mget post.matchIdx id).isSome) post.matchIdx * 2 >
-              ((voterPeers s'.targets).filter fun id => (mget post.matchIdx id).isSome).length + 1)
+          (s'.targets.any fun n => n.role == rLearner && mgetD post.matchIdx n.id ≥ post.commit)
         then some "learner-counted-in-commit-quorum"
-      else learnerAckMoves s' rest post more
+      else learnerAckMoves cu s' rest (post, ppost) more
 
 def monitorC27 (c : Case) (out : String) : String :=
   if out == "panic" then "skip"
+  else if !consistentAll c.init c.ops then "skip"
   else if !(c.init.view.nodes.any fun n => n.role == rLearner) &&
           !(c.ops.any fun o => match o with | .change _ => true | _ => false) then "skip"
   else
-    match (out.splitOn " | ").mapM parseObs with
+    let recs := out.splitOn " | "
+    match recs.mapM parseObs with
     | none => "bad unparsable-output"
     | some [] => "bad unparsable-output"
     | some (o0 :: os) =>
       if os.length != c.ops.length then "bad record-count"
-      else match learnerAckMoves c.init c.ops o0 os with
+      else
+        let ps := recs.map parsePending
+        match learnerAckMoves c.init.catchup c.init c.ops (o0, ps.headD []) (os.zip (ps.drop 1)) with
         | some sig => "bad " ++ sig
         | none => "ok"
 
